@@ -133,7 +133,7 @@ META.update({
         note=_GW_NOTE + " Data-race reports are not C25 violations (no -race build here).",
         technique="stateful fuzzing (rapid) with process-death detection and ddmin minimisation"),
 })
-CHECKS["C27"] = dict(parts=[part("dispatch-matching", "cl", "TestC27", 5000, 300_000)])
+CHECKS["C27"] = dict(parts=[part("dispatch-matching", "cl", "TestC27", 5000, 300_000, death_is_violation=True, death_kind="client-process-died/dispatch")])
 CHECKS["C17"] = dict(parts=[part("client-qos-under-loss", "cl", "TestC17", 3000, 200_000)])
 CHECKS["C28"] = dict(parts=[part("calls-return", "cl", "TestC28", 3000, 200_000, death_is_violation=True, death_kind="client-process-died/api-calls")])
 _CL_NOTE = "Real client library (unmodified, its dial replaced through the verif-tagged hook) on an in-memory datagram link inside a testing/synctest bubble; the scripted gateway speaks through the reference codec snref, which is trusted. Blocking API calls run on their own goroutines. Built with go1.26.8."
